@@ -721,6 +721,23 @@ impl OutNode {
         self.connected = true;
     }
 
+    /// a handle with which another simulated task (the S-PAIR acceptor) can hand connections to the server task
+    pub fn connector(&self) -> OutConnector {
+        OutConnector { new_session: self.new_session.clone(), next_id: Arc::new(Mutex::new(1000)) }
+    }
+
+    /// hand a connection made of existing channels to the server task (S-PAIR: the other ends belong to the master's socket)
+    pub async fn connect_with(&mut self, inbox: ChanRef, outbox: ChanRef, chunk: ChunkMode, chunk_seed: u64) {
+        self.to_out = inbox;
+        self.from_out = outbox;
+        let sock = SimSocket::new("outstation", self.to_out.clone(), self.from_out.clone(), chunk, chunk_seed).closing_on_drop();
+        let id = self.next_session_id;
+        self.next_session_id += 1;
+        let mut tx = self.new_session.clone();
+        let _ = tx.send(NewSession::new(id, PhysLayer::Sim(Box::new(sock)))).await;
+        self.connected = true;
+    }
+
     /// cut the current connection
     pub fn disconnect(&mut self, kind: CloseKind) {
         io::chan_close(&self.to_out, kind);
@@ -742,5 +759,25 @@ impl OutNode {
 
     pub fn callback_count(&self) -> usize {
         self.rec.lock().unwrap().log.len()
+    }
+}
+
+#[derive(Clone)]
+pub struct OutConnector {
+    new_session: Sender<NewSession>,
+    next_id: Arc<Mutex<u64>>,
+}
+
+impl OutConnector {
+    /// a new connection for the outstation: `inbox` carries the octets written by the master, `outbox` those for the master
+    pub async fn connect_with(&self, inbox: ChanRef, outbox: ChanRef, chunk: ChunkMode, chunk_seed: u64) {
+        let sock = SimSocket::new("outstation", inbox, outbox, chunk, chunk_seed).closing_on_drop();
+        let id = {
+            let mut n = self.next_id.lock().unwrap();
+            *n += 1;
+            *n
+        };
+        let mut tx = self.new_session.clone();
+        let _ = tx.send(NewSession::new(id, PhysLayer::Sim(Box::new(sock)))).await;
     }
 }
